@@ -52,8 +52,11 @@ func mSqrt(matrix Matrix) (Matrix, error) {
   Y1.MmulS(Y1.MaddM(Y0, t1), c)
   Z1 := Z0.CloneMatrix()
   Z1.MmulS(Z1.MaddM(Z0, t2), c)
-  for t0.Mnorm(S.MsubM(Y0, Y1)).GetFloat64() > 1e-8 {
+  for iter := 0; t0.Mnorm(S.MsubM(Y0, Y1)).GetFloat64() > 1e-8; iter++ {
     verifhook.Tick("msqrt.iter")
+    if iter >= 100 {
+      return nil, errors.New("matrix square root iteration did not converge")
+    }
     Y0, Y1 = Y1, Y0
     Z0, Z1 = Z1, Z0
     t1, err := matrixInverse.Run(Z0)
